@@ -20,6 +20,8 @@ RULES=[
  (r"overflow:Add", r"\+= ?1\b|\+ 1\b|\+ 2\b|\+ 1,|\+ 1\)", "increment by a small constant of a counter/index/depth that is bounded by the number of elements, characters or nesting levels held in memory"),
  (r"Handle::current|block_on", r"Handle::current\(\)|block_on", "synchronous callback of the line editor / blocking task: always entered from a tokio runtime thread (spawn_blocking or the interactive loop), so a current runtime handle exists"),
  (r"process-exit", r"process::exit", "process entry point after the runtime returned"),
+ (r"block_in_place", r"block_in_place", "block_in_place panics only on a current-thread runtime; brush-shell builds a multi-thread runtime (entry::run: Builder::new_multi_thread) and these are line-editor callbacks entered from it"),
+ (r"random_range", r"random_range\(0\.\.32768\)", "constant non-empty range"),
 ]
 out=[]; todo=[]
 for (fn,kind),ss in res.items():
